@@ -290,6 +290,9 @@ def disconnect_prog():
         elif isinstance(st, ast.If) and _u(st.test) == "self._protocol is not None" and not st.orelse \
                 and [_u(x) for x in st.body] == ["self._protocol.disconnect()", "self._protocol = None"]:
             out.append(".closeProtocol")
+        elif isinstance(st, ast.If) and _u(st.test) == "self._transport is not None" and not st.orelse \
+                and [_u(x) for x in st.body] == ["self._transport.close()"]:
+            out.append(".closeTransport")
         elif s == "self._transport = None":
             out.append(".clearTransport")
         elif s == "self.unwatch_all()":
